@@ -7,6 +7,7 @@ def obligations():
     obs += lower_ob.obligations_lower('O4.4')
     from props import c04_pkg
     obs += c04_pkg.obligations()
+    obs += string_nopanic_obligations()
     obs += selftest_ob.parser_obligations('O4.0')
     try:
         from props import e1_obs
@@ -19,3 +20,15 @@ META = {
     'assumptions': ['O4.4 extends the claim to CST->AST lowering (ast::lower executed from MIR on a model of the rowan red tree, validated against the native pipeline on corpus programs); the logos DFA, name resolution, typer and later stages are outside this claim', 'token texts abstract; TokenKind Display stubbed', 'stack depth on deep nesting is not modelled'],
     'trusted_base': ['mirsym MIR interpreter', 'std/rowan models listed per obligation', 'z3', 'rustc nightly MIR dump', 'rustdoc JSON type tables'],
 }
+
+
+def ob_string_literal_nopanic(r, tier, seed, items):
+    """O4.6: the string-literal path of ast::lower + escape_go_string never panics (same exploration as C11 O11.3, only the panic findings count here)"""
+    from props import c11
+    c11.ob_string_literal(r, tier, seed, items)
+    r.findings = [f for f in r.findings if f.key == 'panic']
+
+def string_nopanic_obligations():
+    from vlib.core import Ob
+    return [Ob('O4.6-string-literal-nopanic-1', 'lowering a lexer-accepted string literal never panics: 1 item', ob_string_literal_nopanic, ('quick', 'thorough'), 1, dict(items=1)),
+            Ob('O4.6-string-literal-nopanic-2', 'lowering a lexer-accepted string literal never panics: 2 items', ob_string_literal_nopanic, ('quick', 'thorough'), 3, dict(items=2))]
